@@ -29,7 +29,7 @@ def value(kind):
             "badb64": "!!!", "b64bin": "/w==", "nonascii": "€é", "manydigits": "9" * 5000, "list": [1, "a"],
             "nested": [[1, [2]], [3]], "dict": {"a": 1, "b": "x"}, "dicts": [{"a": 1}, {"b": 2}], "strs": ["b", "a", ""],
             "mixed": [1, "a", None, [2], {"a": 1}, 1.5], "range": range(1, 4), "date": "2020-01-01 10:00", "fmt": "%Y %Z %s %-d %Q",
-            "neghuge": -(10 ** 5000), "tuple": (1, 2), "deep": {"a": {"b": [1, {"c": 2}]}}}[kind]
+            "neghuge": -(10 ** 5000), "tuple": (1, 2), "deep": {"a": {"b": [1, {"c": 2}]}}, "ts": 10 ** 17, "tsstr": "100000000000000000"}[kind]
 
 
 def bind(data, name, kind):
@@ -92,10 +92,24 @@ def _tag_source(cell):
         "callarg": "{% macro m v %}{{ v }}{{ args }}{{ kwargs }}{% endmacro %}{% call m x, y, k: y %}",
         "liquid": "{% liquid\n assign z = x | default: y\n echo z\n for v in x\n echo v\n endfor\n%}",
         "extends": "{% extends x %}{% block b %}c{% endblock %}", "block": "{% extends 'base' %}{% block b %}{{ x }}{{ block.super }}{% endblock %}",
+        "translatecontext": "{% translate context: x %}Hello{% endtranslate %}{{ 'Hello' | t: x }}{{ 'Hello' | pgettext: x }}",
         "ifblank": f"{{% if x == blank %}}{T}{{% endif %}}{{% if blank == x %}}{T}{{% endif %}}",
         "ifempty": f"{{% if x == empty %}}{T}{{% endif %}}{{% if empty != x %}}{T}{{% endif %}}",
     }[cell["c"]]
     return src, data
+
+
+def deep_source(cell):
+    k, d = cell["kind"], cell["depth"]
+    return {
+        "index": "{{ " + "a[" * d + "0" + "]" * d + " }}", "and": "{% if " + " and ".join(["a"] * d) + " %}x{% endif %}",
+        "or": "{% if " + " or ".join(["b"] * d) + " %}x{% endif %}", "not": "{% if " + "not " * d + "a %}x{% endif %}",
+        "paren": "{% if " + "(" * d + "a" + ")" * d + " %}x{% endif %}", "filterchain": "{{ a" + " | upcase" * d + " }}",
+        "dots": "{{ a" + ".b" * d + " }}", "ternary": "{{ " + "a if a else " * d + "a }}",
+        "ifnest": "{% if a %}" * d + "x" + "{% endif %}" * d, "fornest": "{% for i in (1..1) %}" * d + "x" + "{% endfor %}" * d,
+        "rangenest": "{% for i in " + "(1.." * d + "2" + ")" * d + " %}x{% endfor %}", "concat": "{{ a" + " | append: a" * d + " }}",
+        "whenlist": "{% case a %}{% when " + ", ".join(["1"] * d) + " %}x{% endcase %}", "args": "{{ a | default: " + ", ".join(["a"] * d) + " }}",
+    }[k], {"a": "A", "b": False}
 
 
 def exits(src, data, flags=("ternary_expressions", "logical_not_operator", "logical_parentheses")):
@@ -123,6 +137,8 @@ def replay_cell(job):
         src, data = tag_source(cell, variant)
     elif cell["part"] == "source":
         src, data = "".join(cell["s"]), {"a": "A"}
+    elif cell["part"] == "deep":
+        src, data = deep_source(cell)
     else:
         from . import c21
         src, data = c21.concretize(cell["seq"]), {"v": "V"}
@@ -134,6 +150,8 @@ def key_of(cell):
         return f"filter:{cell['f']}"
     if cell["part"] == "tagarg":
         return f"tag:{cell['c']}"
+    if cell["part"] == "deep":
+        return f"deep:{cell['kind']}:{cell['depth']}"
     return cell["part"]
 
 
@@ -164,17 +182,17 @@ def run(tier: str) -> int:
                       "sequences; each input parsed+rendered under STRICT, WARN, LAX, sync and async; every exit judged by ExitMonitor.tla" % (4 if q else 6))
     from . import c21
     try:
-        parts = ["filter0", "filter1", "filter2", "tagarg", "source"]
+        parts = ["filter0", "filter1", "filter2", "tagarg", "source", "deep"]
         jobs = [("ExitCells", gen_cfg("cfg/ExitCells.tmpl", dict(Part=p, MaxLen=4 if q else 6), p), dict(workers=1, timeout=3000, extra=["-maxSetSize", "4000000"]))
                 for p in parts]
         jobs.append(("Exits", "cfg/Exits.cfg", dict(workers=8, timeout=3000)))
         jobs.append(("BlockParser", gen_cfg("cfg/BlockParser.tmpl", dict(Alphabet=c21.ALPHABETS["mixed"][0], MaxLen=3 if q else 5, NestLimit=3, Extra="INVARIANT Emit"), "bp"),
                      dict(workers=1, timeout=3000, extra=["-maxSetSize", "4000000"])))
-        rs = run_many(jobs, parallel=7)
+        rs = run_many(jobs, parallel=8)
     finally:
         cleanup_gen()
     cells = []
-    caps = dict(filter0=10 ** 9, filter1=9000 if q else 10 ** 9, filter2=7000 if q else 45000, tagarg=9000 if q else 10 ** 9, source=10 ** 9 if q else 90000)
+    caps = dict(filter0=10 ** 9, filter1=9000 if q else 10 ** 9, filter2=7000 if q else 45000, tagarg=9000 if q else 10 ** 9, source=10 ** 9 if q else 90000, deep=10 ** 9)
     for p, r in zip(parts, rs):
         ck.tlc("ExitCells " + p, r)
         cs = r.emitted
@@ -182,11 +200,11 @@ def run(tier: str) -> int:
             ck.cov.setdefault("sampled", {})[p] = [caps[p], len(cs)]
             cs = rnd.sample(cs, caps[p])
         cells += cs
-    ck.tlc("Exits automaton", rs[5])
-    if rs[5].violated:
-        ck.fail(f"Exits.tla {rs[5].violated} violated", {"tlc": rs[5].out[-2000:]})
-    ck.tlc("BlockParser mixed", rs[6])
-    cells += [{"part": "tokens", "seq": c["seq"]} for c in rs[6].emitted]
+    ck.tlc("Exits automaton", rs[6])
+    if rs[6].violated:
+        ck.fail(f"Exits.tla {rs[6].violated} violated", {"tlc": rs[6].out[-2000:]})
+    ck.tlc("BlockParser mixed", rs[7])
+    cells += [{"part": "tokens", "seq": c["seq"]} for c in rs[7].emitted]
     jobs = [(c, i % 3) for i, c in enumerate(cells)]
     observations, meta = [], []
     for (cell, variant), (src, ex) in zip(jobs, par.pmap(replay_cell, jobs, chunk=128)):
